@@ -125,6 +125,16 @@ Definition calc_image_offset (ifd cb : option (Z * Z)) (bios_ok : bool) (len add
       end
   end.
 
+(** * pkg/tools/acm.go: ParseACM after fit.ParseSACMData (fiano) *)
+
+Definition ACMModuleSubtypeAncModule : Z := 2.
+(** what the harness writes for an ACM returned without info tables *)
+Definition ANC_MARK : list Z := [7777].
+(** [subtype] = Header.GetModuleSubType(): an ANC module has no ACMINFO table and is
+    returned as it is, otherwise ParseACMInfo decides ([user], [total] as for [acm_info]) *)
+Definition parse_acm_after (subtype : Z) (fx : fixes) (total : list Z) : rd (list Z) :=
+  if 0 <? Z.land subtype ACMModuleSubtypeAncModule then ret ANC_MARK else acm_info fx total.
+
 (** * pkg/tpmdetection/detection.go: local() *)
 
 (** [dev_missing]: os.Stat(devicePath) says "not exist" -> TypeNoTPM, no error;
